@@ -64,7 +64,7 @@ VALID = ['PEPTIDE', '[Acetyl]-PEP[Oxidation]TIDE-[Amidated]/2', '<13C><[Carbamid
 # values no resolver can give a mass / composition
 UNRESOLVABLE = ['Foo', 'Unimod:999999', 'U:NoSuchName', 'MOD:99999999', 'Glycan:Foo3', 'Obs:abc', 'XLMOD:99999999',
                 'RESID:ZZ9999', 'GNO:G0000000X', 'M:NoSuchName', 'R:NoSuchName', 'X:NoSuchName', 'G:NoSuchName',
-                'INFO:only information|Foo']
+                'INFO:only information|Foo', '', 'Foo|', '|Foo', 'Foo|Bar']
 POSITIONS = ['PEP[{m}]TIDE', '[{m}]-PEPTIDE', 'PEPTIDE-[{m}]', '[{m}]?PEPTIDE', '{{{m}}}PEPTIDE', 'P(EP)[{m}]TIDE', '<[{m}]@P>PEPTIDE',
              'PEP[{m}]^2TIDE', 'PEP[Oxidation][{m}]TIDE']
 
